@@ -1,7 +1,7 @@
 """C06 — results do not depend on performance options, lane position or code path."""
 import json, pickle, base64, random
 import numpy as np
-from . import common, circ, wavecorr as wc
+from . import common, circ, wavecorr as wc, pathtie
 import extract_ops
 
 PID = 'C06'
@@ -14,6 +14,9 @@ RULE = ('random circuits x stimuli; every case compares a reference configuratio
         'KV.C06.strip_equiv / strip_equiv_polind / strip_equiv_all_circuits on the real pair of runs (certificate stripOkB and stripOps = real '
         'stripped rows through the Lean driver; Net.wfB, orderOKB, forksOKB of the real circuit and order, model stemList = real branch->stem map; zero delay on fork inputs, capacities, polarity independence, monotone stems numerically) and, '
         'on every lane where they hold, require equal waveforms on every non-branch signal and branch(un-stripped) = stem(stripped). '
+        'clause path-tie (correspondence, harness/pathtie.py): the Lean models of both code paths of s_to_c / s_ppo_to_ppi / the capture scan '
+        '(Model/WaveIO.lean) against the REAL WaveSim (NumPy) and WaveSimCuda (kernels under MockCuda) on random tables (incl. flip-flops without '
+        'outputs: c_locs = -1), values off {0,1}, random previous memory contents and block shapes: raw arrays must be equal cell by cell. '
         'distinct = (circuit, clause, seeds)')
 
 
@@ -324,6 +327,7 @@ def run(ck):
     ck.prove([extract_ops.generate], TARGETS, theorems())
     n = 120 if ck.tier == 'quick' else 2000
     oracle(ck, n, ck.tier == 'thorough')
+    pathtie.corr(ck, 80 if ck.tier == 'quick' else 1200)
     if ck.broken and not ck.violations: oracle(ck, n * 4, ck.tier == 'thorough')
     ck.assumptions += ['GPU-kernel code path = the cuda.jit kernels executed by MockCuda (no CUDA device here)',
                        'delay data-set mode 2 (pseudo-random pick) is not part of the statement']
@@ -331,6 +335,10 @@ def run(ck):
 
 
 def replay(rep):
+    if rep['input'].get('clause') == 'path-tie':
+        broken, _ = pathtie.eval_case(rep['input'])
+        print(json.dumps({'ok': not broken, 'observed': {'broken-correspondence': broken}, 'expected': None}, default=str))
+        return 0 if not broken else 1
     ok, obs, exp = eval_case(rep['input'])
     if ok and rep['input'].get('clause') in ('wave-strip', 'wave-strip-witness'):
         th = strip_theorem(rep['input'])
